@@ -342,11 +342,11 @@ func c04SeqOracle(r *SeqRun) []Viol {
 			}
 		}
 	}
-	for v := range owed {
-		if !held[v] {
-			out = append(out, Viol{Key: "C04/accepted-value-vanished-without-onexit", What: fmt.Sprintf("value %d was accepted and never passed to OnExit, but the cache no longer holds it (neither stored nor buffered)", v)})
-		}
-	}
+	// (The converse — an accepted, unreleased value that is neither stored nor buffered — is NOT
+	// judged here: the property allows the release to be deferred until the next Clear / Close.
+	// Such a leak is caught one event later, because Close is an event of the alphabet in every
+	// state and the exactly-once oracle then finds the value never released.)
+	_ = owed
 	for v := range held {
 		if !owed[v] && v != 0 {
 			out = append(out, Viol{Key: "C04/released-value-still-held", What: fmt.Sprintf("value %d is still held by the cache although it was passed to OnExit or its Set returned false", v)})
